@@ -209,6 +209,13 @@ func roleMethods(role, text string) (src sources, main string, ms []methodT) {
 				if e := s.AddType("@u", jschema.New("@u", "1")); e != nil {
 					return s, e
 				}
+				if strings.Contains(root, "@a") {
+					// an heir of the type under test whose NAME sorts in front of it (types are visited in
+					// name order: the error inside @t is first met through @a)
+					if e := s.AddType("@a", jschema.New("@a", heirOfT)); e != nil {
+						return s, e
+					}
+				}
 				err := s.AddType("@t", jschema.New("@t", text))
 				return s, err
 			}
@@ -242,6 +249,7 @@ func roleMethods(role, text string) (src sources, main string, ms []methodT) {
 		src["schema"] = "{\n  \"k\": @t\n}"
 		src["doc"] = `{"k":1}`
 		src["@u"] = "1"
+		src["@a"] = heirOfT
 	case "enum":
 		main = "@e"
 		src["@e"] = text
@@ -439,7 +447,12 @@ var typeRoots = []string{"@t", "{\n  \"k\": @t\n}", "[\n  @t\n]",
 	"{\n  @t : 1\n}", "{ // {allOf: \"@t\"}\n  \"y\": 1\n}", "1 // {type: \"@t\"}", "{\n  \"k\": 1 // {or: [\"@t\", \"@u\"]}\n}",
 	// the type is an allOf parent of an object that lies deep inside a long root text:
 	// a position taken from the wrong file falls behind the end of the type's own text
+	// the type is reached through an heir type whose name sorts in front of it
+	"{\n  \"k\": @a\n}", "@a | @u",
 	"{\n  \"a_long_key_in_front_of_the_object_that_inherits_from_the_type_under_test\": \"and a long value as well, so that offsets in this file exceed the length of short type texts\",\n  \"n\": { // {allOf: \"@t\"}\n    \"y\": 1\n  }\n}"}
+
+// heirOfT: a short type that extends the type under test.
+const heirOfT = "{ // {allOf: \"@t\"}\n}"
 
 // repoRoot: the library tree the harness was built against (the launcher sets
 // VERIF_REPO when it is not /repo).
